@@ -71,6 +71,24 @@ class Gen:
         r = self.rng
         k = r.below(8)
         vs = self.vars_of("bool")
+        if d < 2 and r.chance(1, 7):
+            # a logical operator whose RIGHT operand is a literal (absorbing or neutral): the left operand must still be evaluated —
+            # for its effect (a callback, an assignment), for its error (not a boolean, division by zero), or just for its value
+            self.note("logic-literal-right")
+            c = r.below(5)
+            wb = self.vars_of("bool", writable=True)
+            if c == 0 and self.feat["cbs"]:
+                self.ncb += 1
+                left = "(bin %s (cb %d %s) (int %d))" % (r.choice(["==", "!=", "<"]), r.below(4), self.int_expr(2), r.below(4))
+            elif c == 1 and wb:
+                left = "(pre not (id %s))" % r.choice(wb)               # (an assignment cannot be an operand: `(x = b)` does not parse)
+            elif c == 2 and self.feat["errors"] and r.chance(1, 2):
+                left = self.int_expr(2)                              # Condition not boolean
+            elif c == 3 and self.feat["errors"] and r.chance(1, 2):
+                left = "(bin == (bin / %s (int 0)) (int 1))" % self.int_expr(2)
+            else:
+                left = self.bool_expr(d + 1)
+            return "(%s %s (bool %d))" % (r.choice(["and", "or"]), left, r.below(2))
         if k == 0 or d >= 2:
             if vs and r.chance(1, 2):
                 return "(id %s)" % r.choice(vs)
@@ -502,6 +520,22 @@ class Gen:
         return "(block (decl %s (lambda (%s) (%s) %s)) (print (call (id %s) %s)))" % (n, " ".join(caps), p, body, n, self.int_expr())
 
     def program(self, nstmts):
+        """a program that terminates: `x := y` on a loop counter (feature refassign) can make a loop run forever, so each candidate is
+        run by the reference interpreter under a step budget and regenerated when it does not finish"""
+        import pyref
+        for attempt in range(20):
+            sx = self._program(nstmts)
+            try:
+                pyref.run_program(sx)
+                return sx
+            except (RuntimeError, RecursionError):
+                hist = self.hist
+                self.__init__(self.rng, self.feat, self.maxdepth)
+                self.hist = hist
+                self.note("regenerated-nonterminating")
+        return "((int 0))"
+
+    def _program(self, nstmts):
         stmts = []
         for _ in range(nstmts):
             stmts.append(self.stmt(0))
